@@ -15,6 +15,7 @@ Definition is_system (l : label) : bool :=
   | LCall _ _ | LEmit _ _ | LTrigR _ | LTrigS _ | LParentCancel | LSubscribe _ | LSubRecv _ _
   | LSubCancel _ | LSubClosed _ | LSubRel _ | LPollBegin _ | LQuiet | LSnap _ => false
   | LRunEnter => false                       (* the environment calls Run() *)
+  | LSeenEntered => false                    (* an observation *)
   | LPoll _ b => b
   | _ => true
   end.
@@ -22,7 +23,7 @@ Definition is_system (l : label) : bool :=
 (* ---------------------------------------------------------------- the measure *)
 
 (* weight of one accepted-or-pending reload request: more than a whole reload pass *)
-Definition W (c : config) : nat := 2 * nrun c + 3.
+Definition W (c : config) : nat := 2 * nrun c + 4.
 
 Definition main_rank (m : main_pc) : nat :=
   match m with
@@ -55,8 +56,12 @@ Definition caller_w (c : config) (kc : nat * op * cstate) : nat :=
   end.
 
 Definition sig_w (c : config) (g : sig) : nat := match g with SigHup => W c + 1 | _ => 1 end.
-Definition lsr_w (c : config) (p : ls_pc) : nat := match p with LsFwd => W c | _ => 0 end.
-Definition mon_rank (p : mon_pc) : nat := match p with MoNot => 4 | MoBcast _ => 1 | _ => 0 end.
+(* every live helper goroutine (trigger listener, state monitor, pending SIGHUP sender, trigger-spawned Shutdown
+   caller) weighs at least 1: its exit is a step of the implementation too *)
+Definition lsr_w (c : config) (p : ls_pc) : nat := match p with LsFwd => W c | LsIdle => 1 | _ => 0 end.
+Definition lss_w (p : ls_pc) : nat := match p with LsIdle | LsFwd => 1 | _ => 0 end.
+Definition mon_rank (p : mon_pc) : nat :=
+  match p with MoNot => 5 | MoBcast _ => 2 | MoFirst | MoLoop _ => 1 | _ => 0 end.
 Definition sub_w (b : subscriber) : nat :=
   (if sub_started b then 0 else 2) + (if sub_closed b then 0 else 1).
 Definition b2n (b : bool) : nat := if b then 1 else 0.
@@ -65,7 +70,8 @@ Definition rt_w (c : config) (t : nat) : nat := t * (W c + 1).
 Definition mu (c : config) (s : state) : nat :=
   main_rank (main s) + sd_rank (sd s) + list_sum (map rn_rank (rn s)) + rm_rank c (rm s)
   + hup s * W c + list_sum (map (caller_w c) (callers s)) + list_sum (map (sig_w c) (sigq s))
-  + list_sum (map (rt_w c) (rtrig (aux s))) + list_sum (map (lsr_w c) (rls s)) + list_sum (strig (aux s))
+  + list_sum (map (rt_w c) (rtrig (aux s))) + list_sum (map (lsr_w c) (rls s)) + 2 * list_sum (strig (aux s))
+  + list_sum (map lss_w (sls s)) + sd_trig s
   + b2n (negb (sdm_done s)) + b2n (negb (stm_done s))
   + list_sum (map mon_rank (mon s)) + 2 * list_sum (map (@length st) (mq s))
   + list_sum (map sub_w (subs s)).
@@ -152,6 +158,12 @@ Proof.
   unfold list_sum in IH. rewrite IH. destruct a; reflexivity.
 Qed.
 
+Lemma sum_mark_lss l : list_sum (map lss_w (mark_ls_done l)) = 0.
+Proof.
+  unfold mark_ls_done. induction l as [|a l IH]; [reflexivity|]. cbn [map list_sum fold_right].
+  unfold list_sum in IH. rewrite IH. destruct a; reflexivity.
+Qed.
+
 Lemma sum_mark_mon l : list_sum (map mon_rank (mark_mon_done l)) = 0.
 Proof.
   unfold mark_mon_done. induction l as [|a l IH]; [reflexivity|]. cbn [map list_sum fold_right].
@@ -201,6 +213,7 @@ Ltac upd0_one :=
 
 Ltac mu_facts c :=
   repeat upd_one rn_rank RnDone; repeat upd_one (rt_w c) 0; repeat upd_one (lsr_w c) LsAbsent;
+  repeat upd_one lss_w LsAbsent;
   repeat upd0_one; repeat upd_one mon_rank MoAbsent; repeat upd_one (@length st) (@nil st);
   try match goal with E : find_caller ?k (callers ?s) = Some _ |- _ =>
         pose proof (sum_del_caller (caller_w c) k _ _ _ E) as Hdel;
@@ -236,12 +249,12 @@ Ltac mu_solve c :=
   repeat match goal with o : op |- _ => destruct o end;
   repeat match goal with g : sig |- _ => destruct g end;
   try discriminate;
-  rewrite ?sum_cons, ?sum_snoc, ?sum_mark_ls, ?sum_mark_mon, ?sum_clear_mq, ?sd_next_rank;
+  rewrite ?sum_cons, ?sum_snoc, ?sum_mark_ls, ?sum_mark_lss, ?sum_mark_mon, ?sum_clear_mq, ?sd_next_rank;
   try match goal with |- context [after_launch ?c ?i] => pose proof (after_launch_rank c i) end;
   try match goal with |- context [rm_after ?c ?j] =>
         let E := fresh "E" in
         destruct (rm_after_shape c j) as [E|(? & E & ? & ?)]; rewrite E end;
-  cbn [main_rank sd_rank rn_rank rm_rank caller_w sig_w lsr_w mon_rank sub_w b2n negb rt_w length
+  cbn [main_rank sd_rank rn_rank rm_rank caller_w sig_w lsr_w lss_w mon_rank sub_w b2n negb rt_w length
        sub_started sub_closed map list_sum fold_right] in *;
   repeat match goal with H : context [caller_w ?c (?k, ?o, ?cs)] |- _ =>
            pose proof (caller_w_pos c (k, o, cs)); generalize dependent (caller_w c (k, o, cs)); intros end;
